@@ -234,6 +234,21 @@ def psdCertLDL {n : Nat} (A L : EMat n n) (D : Fin n → Rat) : Bool :=
 def npsdCert {n : Nat} (A : EMat n n) (x : EMat n 1) (μ : Rat) : Bool :=
   decide (((x.ct.mul ((A + EMat.scalar μ).mul x)).get ⟨0, by omega⟩ ⟨0, by omega⟩).re < 0)
 
+/-- verified certificate of linear independence of the columns of `V` (`d × n`): a left inverse -/
+def linIndepCert {d n : Nat} (V : EMat d n) (W : EMat n d) : Bool := (W.mul V).beq EMat.one
+
+/-- verified certificate of linear dependence of the columns: `V c = 0` with `c ≠ 0` -/
+def linDepCert {d n : Nat} (V : EMat d n) (c : EMat n 1) : Bool :=
+  !(c.beq EMat.zero) && (V.mul c).beq EMat.zero
+
+/-- verified rank certificate for `S` (`R × C`): `P S Q = I_r` (rank ≥ r), and `S N = 0`, `M N = I_k`
+    (nullity ≥ k), with `r + k = C` -/
+def rankCert {R C r k : Nat} (S : EMat R C) (P : EMat r R) (Q : EMat C r) (N : EMat C k) (M : EMat k C) : Bool :=
+  decide (r + k = C) && ((P.mul (S.mul Q)).beq EMat.one) && ((S.mul N).beq EMat.zero) && ((M.mul N).beq EMat.one)
+
+/-- exact rows as an `EMat` -/
+def qmatToEMat (M : QMat) (n m : Nat) : EMat n m := EMat.ofFn fun i j => M.get i.val j.val
+
 /-! ## definiteness-type predicates -/
 
 /-- `is_positive_semidefinite`: `is_hermitian` and `eigvalsh ≥ -atol`.
